@@ -553,6 +553,11 @@ def decide(prop, tier, seed):
                 notes.append("%s: oracle(s) of %s refuted in this harness; %s's own oracle holds" % (s["name"], ",".join(r.get("tagged", [])), prop))
         else:
             bad = [c for c in r.get("bad_covers", []) if not c.startswith("COVER-OPT")]
+            # optional witnesses a spec declares mandatory for this configuration
+            for need in s.get("require_covers", []):
+                hit = [c for c, stt in r.get("covers", {}).items() if need in c]
+                if not hit or any(r["covers"][c] != "SATISFIED" for c in hit):
+                    bad.append("required witness not satisfied: " + need)
             if bad:
                 inconclusive.append("%s: vacuity witness not satisfied: %s" % (s["name"], "; ".join(bad[:3])))
 
